@@ -30,7 +30,7 @@
 (* quantifies over f (MC_Feistel); the trace specification reads f from    *)
 (* the round-function calls recorded in the same execution (Trace_Feistel).*)
 (***************************************************************************)
-EXTENDS Naturals, Sequences, FiniteSets
+EXTENDS Naturals, Sequences, FiniteSets, TLC
 
 Bit == {0, 1}
 
@@ -46,9 +46,13 @@ Max(x, y) == IF x >= y THEN x ELSE y
 (* ---- Bitset operations used by the cipher (toolkit/bits.py) ---- *)
 Hi(v, k) == SubSeq(v, 1, k)                          \* get_higher_bits(k)
 Lo(v, k) == SubSeq(v, Len(v) - k + 1, Len(v))        \* get_lower_bits(k)
-PadL(s, w) == [k \in 1..w |-> IF k <= w - Len(s) THEN 0 ELSE s[k - (w - Len(s))]]
-XorW(a, f) == LET w == Max(Len(a), Len(f))           \* Bitset.__xor__
-              IN  [k \in 1..w |-> (PadL(a, w)[k] + PadL(f, w)[k]) % 2]
+(* TLCEval(v) = v; it only tells TLC to evaluate the string now instead of keeping a closure (strings of  *)
+(* 2000 bits pass through ten rounds)                                                                     *)
+PadL(s, w) == LET d == w - Len(s) IN [k \in 1..w |-> IF k <= d THEN 0 ELSE s[k - d]]
+XorW(a, f) == LET w  == Max(Len(a), Len(f))          \* Bitset.__xor__
+                  pa == PadL(a, w)
+                  pf == PadL(f, w)
+              IN  TLCEval([k \in 1..w |-> (pa[k] + pf[k]) % 2])
 
 (* ---- split (bits_utils.half_bits_not_padding) ---- *)
 LoLen(n) == (n + 1) \div 2
@@ -140,7 +144,7 @@ ByteXor(x, y) == BX(x, y, 8)
 
 (* bytes_utils.bytes_xor(a, b): a copy of a with b xor-ed onto its prefix; needs Len(b) <= Len(a) *)
 XorBytesDefined(a, b) == Len(b) <= Len(a)
-XorBytes(a, b) == [k \in 1..Len(a) |-> IF k <= Len(b) THEN ByteXor(a[k], b[k]) ELSE a[k]]
+XorBytes(a, b) == LET n == Len(b) IN TLCEval([k \in 1..Len(a) |-> IF k <= n THEN ByteXor(a[k], b[k]) ELSE a[k]])
 
 (* key_list = [key[i : i + kl//3] for i in range(0, kl, kl//3)], kl = the declared key length *)
 SubKey(key, kl, j) == SubSeq(key, (j - 1) * (kl \div 3) + 1, j * (kl \div 3))
